@@ -5,9 +5,7 @@ import importlib, json, os, sys
 HERE = os.path.dirname(os.path.dirname(os.path.abspath(__file__)))
 sys.path.insert(0, HERE)
 props = [json.loads(l) for l in open(os.path.join(HERE, "properties.jsonl"))]
-NA = {
-    "C01": "Equality of delivered and submitted byte/field sequences over all messages x chunkings x schedules is a statement about runtime values that no sound static argument in reach can bound; its structural sub-clauses are claimed where they belong (frame segmentation C02, sequence acceptance C03, field validation C12, output validity C14).",
-}
+NA = {}     # every property has a rule module; C01 is claimed for its structural necessary conditions only (see rules/C01.py)
 checks, na = [], []
 for p in props:
     pid = p["id"]
